@@ -219,7 +219,7 @@ func (c *Ctx) ruleStepDom(rule string) {
 					// or: a nil error returned where the declared output's Validate was found to return nil
 					passed := false
 					if core.IsNilConst(e) {
-						for _, cond := range core.CondsAt(r.Block()) {
+						for _, cond := range r.Conds() {
 							x, neq, isNil := core.NilCmp(cond.V)
 							if !isNil || neq == cond.True {
 								continue
@@ -325,7 +325,7 @@ func (c *Ctx) ruleStepErrors(rule string) {
 		found, bad := 0, ""
 		// the returns of the function, and of the same-receiver helpers whose error it hands on unchanged
 		type retOf struct {
-			r  *ssa.Return
+			r  core.Ret
 			ei int
 		}
 		var rets []retOf
@@ -341,7 +341,7 @@ func (c *Ctx) ruleStepErrors(rule string) {
 			r, ei := ro.r, ro.ei
 			// which failure does this return belong to?
 			match := false
-			for _, cond := range core.CondsAt(r.Block()) {
+			for _, cond := range r.Conds() {
 				if w.method == "" {
 					if t, ok := core.CommaOk(cond.V); ok && !cond.True {
 						if _, isLk := t.(*ssa.Lookup); isLk {
